@@ -245,14 +245,19 @@ fn rule_line(r: &mut Rng) -> String {
         6 => format!("||{}{}^", r.pick(&["www.", "www.", "WWW.", "Www.", "www.www.", "www.WWW."]), r.pick(gen::HOSTS)),
         7 => format!("||{}/{}|", r.pick(gen::HOSTS), r.pick(gen::VOCAB)),
         8 => format!("@@||{}^{}", r.pick(gen::HOSTS), r.pick(gen::VOCAB)),
-        9 => {
+        9 => full_regex_rule(r),
+        _ => body(r),
+    }
+}
+fn full_regex_rule(r: &mut Rng) -> String {
+    {
+        {
             // full-regex rule; the literal part in lower, upper or mixed case (the URL is matched
             // lower-cased unless $match-case, so the body has to be folded as well)
             let w = r.pick(gen::VOCAB);
             let w = match r.below(3) { 0 => w.to_string(), 1 => w.to_uppercase(), _ => { let mut c = w.chars(); c.next().map(|f| f.to_uppercase().collect::<String>() + c.as_str()).unwrap_or_default() } };
-            format!("/{}\\/[a-z]+{}/", w, r.pick(&["", "\\d", "\\:", ".*"]))
+            format!("/{}\\/[a-z]+{}/", w, r.pick(&["", "\\d", "\\:", ".*", "\\D", "\\W", "\\S\\d", "[0-9A-F]"]))
         }
-        _ => body(r),
     }
 }
 fn url_line(r: &mut Rng, rule: &str) -> String {
@@ -377,6 +382,21 @@ fn oracle(sm: &mut Summary, stats: &mut std::collections::BTreeMap<String, u64>,
     if rule.contains('$') || !rule.is_ascii() || !e.url.is_ascii() {
         return;
     }
+    // full-regex rule: it matches exactly when the regular expression finds a match in the URL,
+    // case-insensitively (no $match-case here).  Independent reading: the regex crate on the body as
+    // written (only `\/` and `\:` unescaped, as documented) with the (?i) flag, on the URL as given.
+    if rule.len() > 2 && rule.starts_with('/') && rule.ends_with('/') {
+        let body = rule[1..rule.len() - 1].replace("\\/", "/").replace("\\:", ":");
+        if let Ok(re) = regex::RegexBuilder::new(&body).case_insensitive(true).unicode(false).build() {
+            let want = re.is_match(&e.url);
+            sm.oracle_evaluations += 1;
+            *stats.entry("oracle_full_regex_rules".into()).or_insert(0) += 1;
+            if e.matches != want {
+                sm.failure(None, &format!("full-regex rule {:?} on {:?}: NetworkFilter::matches = {}, the regular expression (case-insensitive) says {}", rule, e.url, e.matches, want), json!({"rule": rule, "url": url}));
+            }
+        }
+        return;
+    }
     let Some(want0) = reference(rule, e.url_lc.as_bytes(), e.host.as_bytes(), hs) else { return };
     // option-free rule, script request: the options part only restricts the scheme (|http:// forms)
     let want = want0 && scheme_ok(e.mask, &e.url);
@@ -471,7 +491,12 @@ fn replay(v: &Value, path: &std::path::Path) -> i32 {
             0
         }
         Ok(e) => {
-            let want = e.hs.and_then(|hs| reference(rule, e.url_lc.as_bytes(), e.host.as_bytes(), hs)).map(|w| w && scheme_ok(e.mask, &e.url));
+            let want = if rule.len() > 2 && rule.starts_with('/') && rule.ends_with('/') && !rule.contains('$') {
+                let body = rule[1..rule.len() - 1].replace("\\/", "/").replace("\\:", ":");
+                regex::RegexBuilder::new(&body).case_insensitive(true).unicode(false).build().ok().map(|re| re.is_match(&e.url))
+            } else {
+                e.hs.and_then(|hs| reference(rule, e.url_lc.as_bytes(), e.host.as_bytes(), hs)).map(|w| w && scheme_ok(e.mask, &e.url))
+            };
             println!(
                 "rule {:?} url {:?} host {:?}: mask {:#x} filter {:?} hostname {:?}; matches = {}, ABP semantics = {:?}; F22 class {}, degenerate {}",
                 rule, e.url, e.host, e.mask, e.filter, e.hostname, e.matches, want, host_right_pipe(rule), degenerate(rule)
@@ -588,6 +613,16 @@ fn main() {
             cs.case(expr, json!({"what": "get_url_after_anchor", "url": url, "hostname": host, "anchor_end": ae, "impl": after}), ae > 0);
         } else {
             cs.stat("A_after_anchor_panicked");
+        }
+    }
+
+    // ---------------- A2: full-regex rules against URLs built for them (oracle: the regex itself)
+    for _ in 0..(250 * a.scale) {
+        let rule = full_regex_rule(&mut r);
+        let url = url_line(&mut r, &rule);
+        if let Ok(ev) = eval(&rule, &url) {
+            cs.stat(if ev.matches { "A2_full_regex_match" } else { "A2_full_regex_nomatch" });
+            oracle(&mut sm, &mut ostats, &rule, &url, &ev);
         }
     }
 
